@@ -1,10 +1,11 @@
 """C15 driver: articulation points, bridges, k-cores, PageRank, Louvain on graphs given by neighbour functions."""
+from drivers.labels import FreshList
 import random
 from fractions import Fraction
 
 
 def _label(kind, i):
-    return "v%02d" % i if kind == "str" else i
+    return "v%02d" % i if kind == "str" else ((i, "g") if kind == "tuple" else (1000 + i if kind == "big" else i))
 
 
 def run_gp(case):
@@ -13,7 +14,7 @@ def run_gp(case):
     from solvor.kcore import kcore, kcore_decomposition
     from solvor.pagerank import pagerank
     n, kind = case["n"], case.get("labels", "int")
-    labs = [_label(kind, i) for i in range(n)]
+    labs = FreshList(_label(kind, i) for i in range(n))
     ids = {lb: i for i, lb in enumerate(labs)}
     adj = {lb: [] for lb in labs}
     for u, v in case["edges"]:
@@ -80,7 +81,7 @@ def gen(rng, nmax=9):
     rng.shuffle(edges)
     order = list(range(n))
     rng.shuffle(order)
-    return {"n": n, "edges": edges, "order": order, "symmetric": sym, "labels": rng.choice(["int", "str"]),
+    return {"n": n, "edges": edges, "order": order, "symmetric": sym, "labels": rng.choice(["int", "str", "tuple", "big"]),
             "ks": sorted({0, 1, 2, rng.randint(0, 4)}),
             "pr": [[17, 20, 1], [rng.choice([1, 5, 9, 19]), 20, rng.choice([1, 100])]],
             "res": [[1, 1], [rng.choice([1, 2, 3, 5]), rng.choice([1, 2, 4])]]}
